@@ -7,6 +7,7 @@ CONSTANTS Weights = {50, 100}
  PayCfgs <- McPlainOnly
  PaySenders <- McPlainOnly
  PayFields = {"gasPrice"}
+ GpFields = {"gasPrice"}
  BoxCfgs <- McPlainOnly
  Kinds = {}
  ReconfCfgs <- McNegCfgs
